@@ -364,7 +364,7 @@ func parse_at(tokens []*Token, token_index int) (*AstLoop, int, error) {
 			loopName = nameToken.Lexeme
 			current_index += 1
 		} else {
-			return nil, current_index, parseError
+			return nil, current_index, NewParseError(current_token, "Expected identifier following keyword 'named'")
 		}
 	}
 
@@ -483,7 +483,7 @@ func parse_exactly(tokens []*Token, token_index int) (*AstLoop, int, error) {
 			loopName = nameToken.Lexeme
 			current_index += 1
 		} else {
-			return nil, current_index, parseError
+			return nil, current_index, NewParseError(current_token, "Expected identifier following keyword 'named'")
 		}
 	}
 
